@@ -97,7 +97,7 @@ theorem fused_open : (scanMulRed (erased Gen.ListAmd64Gcm.openAsm) = openMulRed
     ∧ (scanRb (erased Gen.ListAmd64Gcm.openAsm) = openRb
       ∧ countMn .VPSRLW (erased Gen.ListAmd64Gcm.openAsm) = openRb.length) := by decide +kernel
 theorem fused_ok : (sealMulRed ++ openMulRed).all mulRedOK = true ∧ (sealRb ++ openRb).all rbOK = true
-    ∧ sealMulRed.length = 22 ∧ openMulRed.length = 25 := by decide +kernel
+    ∧ sealMulRed.length = 22 ∧ openMulRed.length = 25 ∧ sealRb.length = 22 ∧ openRb.length = 25 := by decide +kernel
 
 /-- **the GHASH arithmetic of the fused routines consists of the blocks of `gHashBlocks`** (A4, checked by
     evaluation on the regenerated listings): `sealAsm` contains 22 and `openAsm` 25 `mul`+`reduce` blocks, instruction
@@ -113,7 +113,7 @@ theorem ghash_blocks_fused :
     ∧ (scanRb (erased Gen.ListAmd64Gcm.sealAsm) = sealRb ∧ countMn .VPSRLW (erased Gen.ListAmd64Gcm.sealAsm) = sealRb.length)
     ∧ (scanRb (erased Gen.ListAmd64Gcm.openAsm) = openRb ∧ countMn .VPSRLW (erased Gen.ListAmd64Gcm.openAsm) = openRb.length)
     ∧ ((sealMulRed ++ openMulRed).all mulRedOK = true ∧ (sealRb ++ openRb).all rbOK = true
-      ∧ sealMulRed.length = 22 ∧ openMulRed.length = 25) :=
+      ∧ sealMulRed.length = 22 ∧ openMulRed.length = 25 ∧ sealRb.length = 22 ∧ openRb.length = 25) :=
   ⟨fused_seal.1, fused_open.1, fused_seal.2, fused_open.2, fused_ok⟩
 
 /-- the same scan on `gHashBlocks` itself: its five `mul`+`reduce` blocks and five `reverseBits` blocks -/
